@@ -105,6 +105,8 @@ def shards(tier, seed):
         s.append(('search', bl[i]))
     for wb in wsgi_bodies(tier, seed):
         s.append(('wsgi', wb))
+    for size in ((9000, 70000) if tier == 'quick' else (9000, 20000, 70000, 300000)):
+        s.append(('large', size))
     return s
 
 
@@ -114,7 +116,7 @@ def bounds(tier, seed):
                          'framing and all buffer sizes via Content-Length framing (WSGI layer)'}
 
 
-FLOORS = {'cut_in_delimiter': 10, 'cut_in_hdr_end': 5, 'cut_in_final_hyphens': 1, 'cut_after_close': 1,
+FLOORS = {'large_divisions': 500, 'cut_in_delimiter': 10, 'cut_in_hdr_end': 5, 'cut_in_final_hyphens': 1, 'cut_after_close': 1,
           'wsgi_divisions': 50}
 
 
@@ -147,6 +149,8 @@ def work(spec):
     kind, arg = spec
     if kind == 'search':
         return work_search(arg)
+    if kind == 'large':
+        return work_large(arg)
     return work_wsgi(arg)
 
 
@@ -221,6 +225,57 @@ def work_search(arg):
                              ('cut_in_delimiter', 'cut_in_hdr_end', 'cut_in_final_hyphens', 'cut_after_close'))
     core.add_sample(res, {'boundary': boundary, 'body': body, 'states': res['states'],
                           'transitions': res['transitions']})
+    return res
+
+
+def large_body(size):
+    """a long first part (file data with delimiter look-alikes) followed by two short ones"""
+    b = b'bnd'
+    unit = b'0123456789abcdef\r\n--bn\r\n-' + bytes(range(256))
+    data = (unit * (size // len(unit) + 1))[:size]
+    parts = [(b'Content-Disposition: form-data; name="big"; filename="b.bin"\r\nContent-Type: application/octet-stream', data),
+             (b'Content-Disposition: form-data; name="t"\r\nX-Long: ' + b'h' * 60, b'v'), (b'A: b', b'w')]
+    body, lay = refmp.build(b, parts, epilogue=CRLF)
+    return b, body, lay
+
+
+def large_cuts(body, lay, size):
+    """all 1-cut divisions whose cut lies after the long part's data began to end (the delimiters, header blocks and data of
+    the short parts), alone and behind an earlier cut"""
+    first_data_end = lay['sections'][2][1][1]
+    zone = range(max(1, first_data_end - 6), len(body))
+    firsts = [None, 1, 100, 4096, 8192, size // 2, first_data_end - 1]
+    for q in zone:
+        for f in firsts:
+            if f is None:
+                yield (q, len(body))
+            elif 0 < f < q:
+                yield (f, q, len(body))
+
+
+def work_large(size):
+    res = core.new_result()
+    mp = _mp()
+    b, body, lay = large_body(size)
+    ref = one_piece(mp, b, body)
+    res['execs'] += 1
+    exp_sections = [[n, tuple(se)] for n, se in lay['sections']]
+    if ref != (exp_sections, None):
+        core.add_violation(res, {'kind': 'large', 'size': size, 'cuts': [len(body)]},
+                           f'one-piece parse of the {len(body)}-byte body: {ref[1]}, {len(ref[0])} sections; encoder layout has {len(exp_sections)}', sig='large-onepiece')
+    for cuts in large_cuts(body, lay, size):
+        got = result_of(feed_cuts(mp, b, body, cuts))
+        res['states'] += 1
+        res['transitions'] += len(cuts)
+        res['execs'] += 1
+        res['nontrivial'] += 1
+        res['counters']['large_divisions'] += 1
+        res['outcomes'].add(f'large: {len(got[0])} sections, error={got[1]}')
+        if got != ref:
+            core.add_violation(res, {'kind': 'large', 'size': size, 'cuts': list(cuts)},
+                               f'{len(body)}-byte body (first part {size} bytes) fed in chunks ending at {list(cuts)}: error={got[1]}, {len(got[0])} sections; '
+                               f'one piece: error={ref[1]}, {len(ref[0])} sections', sig=f'large:{got[1]}')
+    core.add_sample(res, {'large_body_bytes': len(body), 'first_part_bytes': size, 'divisions': res['execs'] - 1})
     return res
 
 
@@ -312,6 +367,15 @@ def replay(case):
         exp = ('200 OK', ef, eff)
         return None if got[:3] == exp else f'{case["framing"]} division {case["arg"]} M={case["M"]} of {body!r}: got {got}, expected {exp}'
     mp = _mp()
+    if k == 'large':
+        b, body, lay = large_body(case['size'])
+        got = result_of(feed_cuts(mp, b, body, case['cuts']))
+        exp = one_piece(mp, b, body)
+        exp_sections = [[n, tuple(se)] for n, se in lay['sections']]
+        if got == exp and exp == (exp_sections, None):
+            return None
+        return (f'multipart body of {len(body)} bytes (a {case["size"]}-byte file part, then two short parts; boundary {b!r}) fed to the parser in chunks ending at '
+                f'{case["cuts"]}: error={got[1]}, sections {got[0]}; in one piece: error={exp[1]}, sections {exp[0]}; encoder layout {exp_sections}')
     b, body = case['boundary'], case['body']
     if k == 'onepiece':
         got = one_piece(mp, b, body)
